@@ -4,19 +4,21 @@
 #include "hist.hpp"
 #include <sanitizer/lsan_interface.h>
 
-static std::vector<std::string> g_cat; static std::vector<int> g_codes;
+static std::vector<std::string> g_cat; static std::vector<int> g_codes; static int g_nord = 1;
 static void init_once() { if (!g_cat.empty()) return; if (!freopen("/dev/null", "w", stdout)) {}
   { Quiet q; MASA::masa_printid<double>(); std::stringstream ss(q.str()); std::string l; int bars = 0; while (std::getline(ss, l)) { if (l.find("*-----") != std::string::npos) { bars++; continue; } if (bars == 1 && !l.empty() && l != "masa_test_function" && l != "masa_uninit") g_cat.push_back(l); } }
   // vector-bearing solutions are over-represented: array and vector paths need them
   for (int i = 0; i < 6; i++) { g_cat.push_back("cp_normal"); g_cat.push_back("radiation_integrated_intensity"); }
+  // the two self-test fixtures sit behind the ordinary entries and are addressed by flag bits (see decode_rec), so that the committed corpus keeps its meaning
+  g_nord = (int)g_cat.size(); g_cat.push_back("masa_test_function"); g_cat.push_back("masa_uninit");
   for (int c = 0; c < OP_FATAL; c++) g_codes.push_back(c); for (int i = 0; i < 3; i++) { g_codes.push_back(OP_INIT); g_codes.push_back(OP_CINIT); g_codes.push_back(OP_SETVEC); g_codes.push_back(OP_CSETARR); g_codes.push_back(OP_CGETARR); g_codes.push_back(OP_EVAL); g_codes.push_back(OP_CGETNAME); }
   g_codes.push_back(OP_FATAL);
   if (const char *p = getenv("VERIF_STATS")) stats().path = p; atexit([] { stats().flush(); }); }
 
 // record layout (20 bytes, decoded from the front so that appended bytes append operations):
-//   code-index u8 | flags u8 (bit0 precision) | handle u8 | idx u8 | solution u16 | parameter u16 | api u16 | n u16 | value entropy u64
+//   code-index u8 | flags u8 (bit0 precision; bits1-3 all set: bit4 selects one of the two self-test fixtures instead of the solution field) | handle u8 | idx u8 | solution u16 | parameter u16 | api u16 | n u16 | value entropy u64
 static const size_t REC = 20;
-static Op decode_rec(const uint8_t *r) { Op o; o.code = g_codes[r[0] % g_codes.size()]; o.prec = r[1] & 1; o.h = r[2]; o.idx = r[3]; auto u16 = [&](int k) { return (int)(r[k] | (r[k + 1] << 8)); }; o.s = u16(4); o.p = u16(6); o.api = u16(8); o.n = u16(10);
+static Op decode_rec(const uint8_t *r) { Op o; o.code = g_codes[r[0] % g_codes.size()]; o.prec = r[1] & 1; o.h = r[2]; o.idx = r[3]; auto u16 = [&](int k) { return (int)(r[k] | (r[k + 1] << 8)); }; o.s = u16(4) % g_nord; if ((r[1] & 0x0E) == 0x0E) o.s = g_nord + ((r[1] >> 4) & 1); o.p = u16(6); o.api = u16(8); o.n = u16(10);
   uint64_t v = 0; for (int i = 0; i < 8; i++) v |= (uint64_t)r[12 + i] << (8 * i); o.v[0] = v; uint64_t m = mix64(v); for (int i = 1; i < 4; i++) { o.v[i] = m; m = mix64(m); } return o; }
 extern "C" int LLVMFuzzerInitialize(int *, char ***) { init_once();
   if (const char *dir = getenv("VERIF_SEED_CORPUS")) {   // a few small valid histories as the starting corpus (the empty corpus is tried by other workers)
